@@ -87,3 +87,55 @@ def sample_of(e, g, bs, start, tab, cfg, strand_codes=None):
     if strand_codes is not None:
         s["strand"] = oracles.model_string(m, strand_codes)
     return s
+
+
+# ------------------------------------------------------------------------------------------ one inductive step of normal-mode encode
+def step_loader(V_holder):
+    """loader kwargs: big-number contract stub whose bit_to_number returns an ARBITRARY positive value (the holder's z3 Int)."""
+    ops = dict(stubs.OPERATION_STUBS)
+    ops["bit_to_number"] = lambda bit_array, is_string=True, verbose=False: strs.DecNum(V_holder["V"])
+    return {"stubs": {"operation": ops}, "_key": "decnum-step"}
+
+
+STEP_HOLDER = {"V": None}
+
+
+def frame_locals(ex, fname):
+    tb = ex.__traceback__
+    found = None
+    while tb is not None:
+        if tb.tb_frame.f_code.co_name == fname:
+            found = tb.tb_frame.f_locals
+        tb = tb.tb_next
+    return found
+
+
+def run_one_step(e, L, g, start, tab):
+    """execute exactly one iteration of the normal-mode loop of the real encode from the state (quotient = V, vertex = start)
+    with V an arbitrary integer >= 1.  Returns (kind, info): kind 'step' with info = (col_code, V_after, v_after) or 'dead'."""
+    V = z3.Int("V")
+    e.assume(V >= 1)
+    STEP_HOLDER["V"] = V
+    acc = g.accessor()
+    acc.budget = symnp.AccessBudget(2)
+    msg = symnp.Arr.new([1], (1,), symnp.INT)
+    sh = tab.array() if tab is not None else None
+    try:
+        r = L.encode(msg, acc, SymInt(start), shuffles=sh)
+        codes = strs.codes_of(r)
+        if len(codes) != 1:
+            return "exc", "encode returned %d nucleotides after one step" % len(codes), V
+        col = oracles.nuc_index(codes[0])
+        return "step", (col, z3.IntVal(0), None), V
+    except ValueError as ex:
+        return "dead", str(ex), V
+    except Budget as ex:
+        loc = frame_locals(ex, "encode")
+        q = loc["quotient"]
+        codes = strs.codes_of(loc["dna_sequence"])
+        if len(codes) != 1:
+            return "exc", "%d nucleotides emitted in one iteration" % len(codes), V
+        qv = q.v if isinstance(q, strs.DecNum) else stubs._val(q)
+        return "step", (oracles.nuc_index(codes[0]), qv, core.zint(loc["vertex_index"])), V
+    finally:
+        acc.budget = None
